@@ -212,7 +212,7 @@ func (c *Ctx) runJob(j Job) {
 	// filter expected panics
 	var obs []engine.Obligation
 	for _, ob := range res.Obs {
-		if (ob.Kind == "panic") && allowed(ob.Rec.Msg, j.AllowPanic) {
+		if (ob.Kind == "panic") && allowed(ob.Rec.Msg+" @"+ob.Rec.Pos, j.AllowPanic) {
 			continue
 		}
 		obs = append(obs, ob)
@@ -261,7 +261,7 @@ func (c *Ctx) runJob(j Job) {
 			c.Discharged++
 			c.mu.Unlock()
 			// replay the cover model natively: validates the translation on a real run
-			if j.MaxCoverReplays == 0 || coverReplays < j.MaxCoverReplays {
+			if j.MaxCoverReplays >= 0 && (j.MaxCoverReplays == 0 || coverReplays < j.MaxCoverReplays) {
 				coverReplays++
 				c.validateCover(j, e, o)
 			}
